@@ -364,12 +364,9 @@ def proto_data_received(u: U):
                 "a parse error closes the transport and records the error: nothing of it is delivered")
         return
     u.check("C06.data.messages_queued", names.count("queue") == n_msgs, "every complete message is queued")
-    if n_msgs and _Msg.code in (100, 102):
-        # an interim response: the exchange goes on, the caller (ClientResponse.start) loops back to protocol.read()
-        u.check("C18.sockread.interim_response_keeps_the_timer", Implies(blen(data) > 0, not dropped),
-                "after an interim 1xx response the client is still awaiting headers: the sock_read timer re-armed by "
-                "these bytes stays armed, so a peer that stalls after '102 Processing' / '100 Continue' is timed out",
-                known=[("F18a", True)], witness={"code": _Msg.code})
+    # (an interim 1xx message drops the timer here like any message without a body; whoever goes on waiting for the
+    # final response re-arms it: ClientResponse.start when nothing is being sent - contracts/c18.py, unit
+    # sock_read.interim_response - or the request writer when it has sent the body - C06.write.complete_body)
     if n_msgs:
         u.check("C06.data.close_announced_sticks", Implies(msg_close, fs["_should_close"] is True),
                 "Connection: close (or HTTP/1.0 without keep-alive) marks the protocol unusable")
